@@ -25,8 +25,13 @@ async def main():
     await conn._send_stream_data(req, sid, b"x" * 30000)              # 30000 bytes already sent on the stream
     conn._h2_state.receive_data(hf.SettingsFrame(settings={SettingCodes.INITIAL_WINDOW_SIZE: 1000}).serialize())
     print("stream send window now:", conn._h2_state.local_flow_control_window(sid))
-    with anyio.fail_after(2):
+    flow = None
+    with anyio.move_on_after(2):
         flow = await conn._wait_for_outgoing_flow(req, sid)
+    if flow is None:
+        print("_wait_for_outgoing_flow waits for the window to reopen (correct)")
+        print("not reproduced")
+        raise SystemExit(0)
     print("_wait_for_outgoing_flow returned:", flow)
     n0 = len(writes)
     with anyio.move_on_after(0.5) as scope:
